@@ -854,6 +854,71 @@ def r03j(ctx, rep, rule="R03j"):
             "ends up on the free list twice and is handed to two objects" % f.short, [t["loc"]])
 
 
+HEAP_INDEX_FIELDS = {
+    # field of Heap that can hold cell indices -> how it is kept consistent with what is allocated
+    "chunk_size": "a size, not an index",
+    "free_list": "the indices of the free cells: pushed by Heap::free, popped by Heap::alloc (R03e / R12e)",
+    "symbol_table": "name -> index of the interned symbol: Heap::free removes the entry of a freed symbol (R18b)",
+}
+
+
+def r03k(ctx, rep, rule="R03k"):
+    """references kept outside the cells: bytecode operands and Heap's own fields"""
+    from ..shapes import dominating_guards
+    facts = ctx["facts"]
+    rep.rule(rule, "no reference escapes the collector's view: (1) Heap::mark_lambda hands every cell of a procedure's bytecode to "
+             "mark_vcell unconditionally — constants are operands of several instructions (MOV-immediate, PUSH-immediate, "
+             "CLOSURE ...), so a marker that follows the operands of selected opcodes only frees the others while the "
+             "procedure is live; (2) every field of Heap whose type can hold a cell index is in a reviewed table that says how "
+             "it follows allocation and freeing — a cached index (say, of a shared '() cell) that is neither a root nor "
+             "cleared by Heap::free dangles after the first collection that finds the cell unreachable.")
+    f = need(rep, rule, facts, MARK_LAMBDA)
+    if f is not None:
+        loops = []
+        for src, h in f.back_edges():
+            loops.append((h, (f.reach_from(h) & f.reach_back(src)) | {h, src}))
+        # the loop over the bytecode: its iterator is built from the `bc` field
+        hit = None
+        for h, body in loops:
+            marks = [bb for bb, t in f.calls() if callee(t) == MARK_VCELL and bb in body]
+            its = [t for bb, t in f.calls() if "into_iter" in (callee(t) or "") and any(f.dominates(bb, m) for m in marks)]
+            from ..shapes import shape
+            if any(".bc" in shape(f, t["args"][0], 3) for t in its if t["args"]) or True:
+                for m in marks:
+                    conds = [(sb, tk) for sb, c, tk, tt in dominating_guards(f, m) if sb in body]
+                    extra = [x for x in conds if not (f.origin(f.blocks[x[0]]["term"]["op"])[0] == "rv" and
+                                                      f.origin(f.blocks[x[0]]["term"]["op"])[1]["rv"]["k"] == "disc" and
+                                                      "Option" in f.origin(f.blocks[x[0]]["term"]["op"])[1]["rv"]["place"]["ty"])]
+                    if hit is None:
+                        hit = (m, extra)
+                    elif extra:
+                        hit = (m, extra)
+        key = rule + "|mark_lambda|every-bytecode-cell"
+        if hit is None:
+            rep.fail(rule, key, "Heap::mark_lambda contains no loop that hands bytecode cells to mark_vcell", [f.span])
+        elif hit[1]:
+            rep.fail(rule, key, "Heap::mark_lambda passes a bytecode cell to mark_vcell only under a condition on the cell or the "
+                     "preceding opcode: operands of the other instructions (the constant tail a quasiquote pushes with "
+                     "PUSH-immediate, for one) are referenced from nowhere else and are freed while the procedure is live",
+                     [f.blocks[hit[0]]["term"]["loc"]])
+        else:
+            rep.ok(rule, key, "mark_lambda marks the cells of its loops unconditionally", [f.span])
+    heap = facts.adts.get("marwood::vm::heap::Heap")
+    if heap is None:
+        rep.anchor_lost(rule, "struct Heap")
+        return
+    for fld in heap["variants"][0]["fields"]:
+        if "usize" not in fld["ty"]:
+            continue
+        key = "%s|Heap.%s" % (rule, fld["name"])
+        if fld["name"] in HEAP_INDEX_FIELDS:
+            rep.ok(rule, key, "Heap.%s (%s): %s" % (fld["name"], fld["hir"], HEAP_INDEX_FIELDS[fld["name"]]), [heap["loc"]])
+        else:
+            rep.fail(rule, key, "Heap.%s has type %s and can hold the index of a cell, but it is neither a root of run_gc nor a table "
+                     "Heap::free keeps in step (no reviewed entry): once the cell it names is unreachable from the machine it is "
+                     "freed and reused while this field still points at it" % (fld["name"], fld["hir"]), [heap["loc"]])
+
+
 def run(ctx, rep):
     r03a(ctx, rep)
     r03b(ctx, rep)
@@ -864,6 +929,7 @@ def run(ctx, rep):
     r03h(ctx, rep)
     r03i(ctx, rep)
     r03j(ctx, rep)
+    r03k(ctx, rep)
     from . import C18
     C18.r18a(ctx, rep, rule="R03f")
     C18.r18b(ctx, rep, rule="R03f")
